@@ -139,6 +139,23 @@ theorem naive_full (mq : Option Nat) (n : Nat) (S : List BVec) (s e : BVec)
     have hg : ¬ (m ≠ 0 ∧ n > m) := by omega
     simp [hg, hr]
 
+/-- the batched evaluation used by the exhaustive comparison (all syndromes of a code in one driver call) is literally
+    the single-syndrome model mapped over the list -/
+theorem naive_all_eq (n : Nat) (S : List BVec) (ss : List BVec) :
+    naiveDecodeAll n S ss = ss.map (naiveDecode n S) := rfl
+
+theorem naive_full_all_eq (mq : Option Nat) (n : Nat) (S : List BVec) (ss : List BVec) :
+    naiveDecodeFullAll mq n S ss = ss.map (naiveDecodeFull mq n S) := by
+  unfold naiveDecodeFullAll naiveDecodeFull
+  rw [naive_all_eq]
+  cases mq with
+  | none => simp [List.map_map, Function.comp_def]
+  | some m =>
+    by_cases hg : m ≠ 0 ∧ n > m
+    · simp [hg]
+    · simp only [hg, if_false, List.map_map, Function.comp_def]
+      simp
+
 /-! ### planar lattice: `sample_recovery` and MWPM -/
 
 /-- **planar_sample_syndrome** (planar MPS / RMPS `sample_recovery`): a path from every defect to its virtual
